@@ -1,0 +1,11 @@
+//! Add-only re-exports of crate-private items for the out-of-tree verification harnesses in
+//! /verif (enabled only by the `verif-hooks` feature; never part of the public API).
+
+pub use crate::beatree::verif_hooks as beatree;
+pub use crate::io::page_pool::{FatPage, Page, PagePool};
+pub use crate::io::PAGE_SIZE;
+pub use crate::page_diff::PageDiff;
+pub use crate::page_region::PageRegion;
+pub use crate::store::verif_hooks::{Meta, MAGIC, META_SIZE, VERSION};
+pub use crate::bitbox::verif_hooks as bitbox;
+pub use crate::page_cache::verif_hooks as page_cache;
